@@ -67,10 +67,11 @@ func encNodes(ns []node, sb *strings.Builder) {
 }
 
 type step struct {
-	group bool
-	name  string
-	attrs []slog.Attr
-	nodes []node
+	group   bool
+	name    string
+	attrs   []slog.Attr
+	nodes   []node
+	rawArgs []any // Logger.With(rawArgs...) instead of the attrs (malformed lists)
 }
 
 func encChain(c []step) string {
@@ -110,10 +111,13 @@ type tcase struct {
 	msg       string
 	attrs     []slog.Attr
 	nodes     []node
-	viaLogger int  // 0: hand-built record through Handler.Handle; 1: Logger.LogAttrs; 2: Logger.Log(msg, args...)
-	site      int  // index into sites: where the pc comes from (file names that need quoting)
-	zeroPC    bool // hand-built record with PC == 0
-	sample    bool // offer the case as a sample for the evidence file
+	viaLogger int     // 0: hand-built record through Handler.Handle; 1: Logger.LogAttrs; 2: Logger.Log(msg, args...)
+	site      int     // index into sites: where the pc comes from (file names that need quoting)
+	zeroPC    bool    // hand-built record with PC == 0
+	sample    bool    // offer the case as a sample for the evidence file
+	method    *method // viaLogger == 3: this Logger method, called from its wrapper in methods.go
+	rawArgs   []any   // viaLogger == 3: the args as given (malformed lists included); nodes say what they mean
+	tag       string  // "E" (default) or "L" (long inputs: judged by the driver, never sampled into cases.v)
 }
 
 type runner struct {
@@ -128,14 +132,18 @@ type runner struct {
 	distinct map[uint64]struct{}
 }
 
-// expected source text, computed from the pc with the runtime's own tables
-func srcText(pc uintptr) string {
+// the frame of a pc as the runtime reports it: full file name and line (+delta), as the case field "<file>,<line>".
+// What the line must show for it (last two path elements, ':' and the line) is the specification's business.
+func (r *runner) srcField(pc uintptr, delta int, count bool) string {
 	f, _ := runtime.CallersFrames([]uintptr{pc}).Next()
-	parts := strings.Split(f.File, "/")
-	if len(parts) > 2 {
-		parts = parts[len(parts)-2:]
+	line := 0
+	if pc != 0 {
+		line = f.Line + delta
 	}
-	return strings.Join(parts, "/") + ":" + strconv.Itoa(f.Line)
+	if count {
+		r.srcSeen[f.File+":"+strconv.Itoa(line)]++
+	}
+	return hk.Hxs(f.File) + "," + hk.Hxs(strconv.Itoa(line))
 }
 
 //go:noinline
@@ -183,9 +191,7 @@ func (r *runner) run(c tcase) {
 			rec.AddAttrs(c.attrs...)
 			timeTxt = c.tm.Format(time.RFC3339)
 			if c.addSource {
-				st := srcText(pcs[0])
-				srcHex = hk.Hxs(st)
-				r.srcSeen[st]++
+				srcHex = r.srcField(pcs[0], 0, true)
 			}
 			hd.Handle(context.Background(), rec)
 			return
@@ -199,6 +205,9 @@ func (r *runner) run(c tcase) {
 				for i, a := range s.attrs {
 					args[i] = a
 				}
+				if s.rawArgs != nil {
+					args = s.rawArgs
+				}
 				l = l.With(args...)
 			}
 		}
@@ -208,6 +217,14 @@ func (r *runner) run(c tcase) {
 			var pc uintptr
 			if c.viaLogger == 1 {
 				pc = sites[c.site].logAttrs(l, levels[c.lvl], c.msg, c.attrs)
+			} else if c.viaLogger == 3 {
+				args := c.rawArgs
+				if args == nil {
+					for _, a := range c.attrs {
+						args = append(args, a)
+					}
+				}
+				pc = c.method.call(l, c.msg, args)
 			} else {
 				args := make([]any, 0, 2*len(c.attrs))
 				for _, a := range c.attrs {
@@ -222,16 +239,7 @@ func (r *runner) run(c tcase) {
 			t1 := time.Now().Format(time.RFC3339)
 			if c.addSource {
 				// runtime.Callers(1) was taken one line above the call
-				f, _ := runtime.CallersFrames([]uintptr{pc}).Next()
-				parts := strings.Split(f.File, "/")
-				if len(parts) > 2 {
-					parts = parts[len(parts)-2:]
-				}
-				st := strings.Join(parts, "/") + ":" + strconv.Itoa(f.Line+1)
-				srcHex = hk.Hxs(st)
-				if try == 0 {
-					r.srcSeen[st]++
-				}
+				srcHex = r.srcField(pc, 1, try == 0)
 			}
 			timeTxt = t0
 			if t0 == t1 {
@@ -241,7 +249,11 @@ func (r *runner) run(c tcase) {
 	}()
 	var sb strings.Builder
 	encNodes(c.nodes, &sb)
-	fields := []string{"E", srcHex, strconv.Itoa(c.lvl), hk.Hxs(timeTxt), hk.Hxs(c.msg), encChain(c.chain), sb.String(), strconv.Itoa(len(cap.writes))}
+	tag := c.tag
+	if tag == "" {
+		tag = "E"
+	}
+	fields := []string{tag, srcHex, strconv.Itoa(c.lvl), hk.Hxs(timeTxt), hk.Hxs(c.msg), encChain(c.chain), sb.String(), strconv.Itoa(len(cap.writes))}
 	for _, w := range cap.writes {
 		fields = append(fields, hk.Hx(w))
 		r.scanQuoted(w)
@@ -314,6 +326,24 @@ type tmErr struct{ text, errText string }
 
 func (t tmErr) MarshalText() ([]byte, error) { return []byte(t.text), nil }
 func (t tmErr) Error() string                { return t.errText }
+
+// methods that panic: a nil pointer receiver (the handler writes <nil>, like fmt and log/slog) and a
+// non-nil receiver (the handler writes !PANIC: <panic value>)
+type ptrTM struct{ s string }
+
+func (p *ptrTM) MarshalText() ([]byte, error) { return []byte(p.s), nil }
+
+type ptrErr struct{ s string }
+
+func (p *ptrErr) Error() string { return p.s }
+
+type tmPanics struct{ v any }
+
+func (t tmPanics) MarshalText() ([]byte, error) { panic(t.v) }
+
+type errPanics struct{ v any }
+
+func (e errPanics) Error() string { panic(e.v) }
 
 type myErr struct{ s string }
 
@@ -388,7 +418,7 @@ func (r *runner) randString(g *hk.Rng) string {
 // randLeaf returns a slog value of a random kind together with its abstract description.
 func (r *runner) randLeaf(g *hk.Rng, key string) (slog.Attr, node) {
 	s := r.randString(g)
-	k := g.Intn(20)
+	k := g.Intn(22)
 	name := ""
 	var a slog.Attr
 	var n node
@@ -458,6 +488,27 @@ func (r *runner) randLeaf(g *hk.Rng, key string) (slog.Attr, node) {
 			v = slog.AnyValue(valuer{v})
 		}
 		name, a, n = "logvaluer", slog.Attr{Key: key, Value: v}, in
+	case 20:
+		switch g.Intn(4) {
+		case 0:
+			name, a, n = "textmarshaler_nilptr", slog.Any(key, (*ptrTM)(nil)), sN("<nil>")
+		case 1:
+			name, a, n = "textmarshaler_ptr", slog.Any(key, &ptrTM{s}), sN(s)
+		case 2:
+			name, a, n = "textmarshaler_panics", slog.Any(key, tmPanics{s}), sN("!PANIC: "+s)
+		default:
+			name, a, n = "textmarshaler_panics", slog.Any(key, tmPanics{errors.New(s)}), sN("!PANIC: "+s)
+		}
+	case 21:
+		switch g.Intn(3) {
+		case 0:
+			name, a, n = "error_nilptr", slog.Any(key, (*ptrErr)(nil)), sN("<nil>")
+		case 1:
+			name, a, n = "error_panics", slog.Any(key, errPanics{s}), sN("!PANIC: "+s)
+		default:
+			name, a, n = "error_panics", slog.Any(key, errPanics{g.Intn(100)}), node{}
+			n = sN("!PANIC: " + fmt.Sprint(a.Value.Any().(errPanics).v))
+		}
 	case 18:
 		hs := hostile[g.Intn(len(hostile))]
 		name, a, n = "string_hostile", slog.String(key, hs), sN(hs)
@@ -569,6 +620,10 @@ func (r *runner) separate(s string, i int) {
 	r.run(tcase{lvl: i % 5, tm: fixedTime, msg: "m",
 		attrs: []slog.Attr{slog.Any("e", myErr{s}), slog.Any("t", tmOK{s}), slog.Any("f", tmFail{s}), slog.Any("b", []byte(s)), slog.Any("a", logger.AnsiString{Value: s}), slog.Any("s", stringer{s})},
 		nodes: []node{{kind: 's', key: "e", text: s}, {kind: 's', key: "t", text: s}, {kind: 's', key: "f", text: s}, {kind: 's', key: "b", text: s}, {kind: 's', key: "a", text: s}, {kind: 's', key: "s", text: s}}})
+	// methods that panic inside the handler: nil pointer receivers and panic values carrying s
+	r.run(tcase{lvl: i % 5, tm: fixedTime, msg: "m", viaLogger: i % 2,
+		attrs: []slog.Attr{slog.Any("tn", (*ptrTM)(nil)), slog.Any("tp", tmPanics{s}), slog.Any("en", (*ptrErr)(nil)), slog.Any("ep", errPanics{s}), slog.Any("ee", errPanics{errors.New(s)}), slog.Any("t", &ptrTM{s})},
+		nodes: []node{{kind: 's', key: "tn", text: "<nil>"}, {kind: 's', key: "tp", text: "!PANIC: " + s}, {kind: 's', key: "en", text: "<nil>"}, {kind: 's', key: "ep", text: "!PANIC: " + s}, {kind: 's', key: "ee", text: "!PANIC: " + s}, {kind: 's', key: "t", text: s}}})
 }
 
 func dumpTables(e *hk.Env) error {
@@ -714,6 +769,115 @@ func run(e *hk.Env) error {
 		nsrc += 2
 	}
 	e.Stats["source_sweep_cases"] = nsrc
+	// 4c. every Logger method (plain and *f) from its own wrapper, source on: the source item must be the wrapper's call line
+	nm := 0
+	for mi := range methods {
+		m := &methods[mi]
+		for _, src := range []bool{true, true, false} {
+			for ci, ch := range [][]step{nil, {{group: true, name: "g h"}, {attrs: []slog.Attr{slog.String("w", "x y")}, nodes: []node{{kind: 's', key: "w", text: "x y"}}}}} {
+				for _, msg := range []string{"m", "m s", "a=b\nc", ""} {
+					c := tcase{chain: ch, lvl: m.lvl, addSource: src, msg: msg, viaLogger: 3, method: m}
+					if !m.formatted {
+						c.attrs = []slog.Attr{slog.String("k", "v"), slog.Int("n", ci)}
+						c.nodes = []node{{kind: 's', key: "k", text: "v"}, {kind: 'v', key: "n", text: strconv.Itoa(ci)}}
+					}
+					r.run(c)
+					nm++
+				}
+			}
+		}
+	}
+	e.Stats["method_sweep_cases"] = nm
+	// 4d. malformed argument lists through Logger.Info / Logger.With: !BADKEY
+	bad := "!BADKEY"
+	sN := func(k, t string) node { return node{kind: 's', key: k, text: t} }
+	vN := func(k, t string) node { return node{kind: 'v', key: k, text: t} }
+	type badCase struct {
+		args  []any
+		nodes []node
+	}
+	badCases := []badCase{
+		{[]any{"k"}, []node{sN(bad, "k")}},
+		{[]any{"k k"}, []node{sN(bad, "k k")}},
+		{[]any{42}, []node{vN(bad, "42")}},
+		{[]any{"a", 1, "b"}, []node{vN("a", "1"), sN(bad, "b")}},
+		{[]any{3.5, "x", "y z"}, []node{vN(bad, "3.5"), sN("x", "y z")}},
+		{[]any{myErr{"e r"}}, []node{sN(bad, "e r")}},
+		{[]any{nil}, []node{sN(bad, "<nil>")}},
+		{[]any{slog.String("p", "q"), "tail"}, []node{sN("p", "q"), sN(bad, "tail")}},
+		{[]any{[]byte("b b"), true}, []node{sN(bad, "b b"), vN(bad, "true")}},
+		{[]any{"", ""}, []node{sN("", "")}},
+		{[]any{"k", "v", 7, 8}, []node{sN("k", "v"), vN(bad, "7"), vN(bad, "8")}},
+		{[]any{time.Second, "d"}, []node{vN(bad, "1s"), sN(bad, "d")}},
+	}
+	for bi, bc := range badCases {
+		for _, mi := range []int{1, 2, 5} { // Info, Warn, Log
+			m := &methods[mi]
+			r.run(tcase{lvl: m.lvl, addSource: bi%2 == 0, msg: "bad", viaLogger: 3, method: m, rawArgs: bc.args, nodes: bc.nodes})
+			r.run(tcase{lvl: m.lvl, addSource: bi%2 == 1, msg: "bad", viaLogger: 3, method: m,
+				chain: []step{{group: true, name: "g"}, {rawArgs: bc.args, nodes: bc.nodes}}, rawArgs: []any{}})
+		}
+	}
+	e.Stats["badkey_cases"] = len(badCases) * 6
+	// 4e. long inputs (a reader must not depend on a size threshold): hostile content at the start, in the middle and
+	// at the end of long messages, keys, values and group names
+	sizes := []int{64, 1024, 2150, 4096}
+	bigSizes := []int{17 * 1024, 70 * 1024}
+	hostileBits := []string{"", "\u00a0", "\u2028", "=", "\"", " ", "\n", "\x00", "\xff", "\u0085", "\u200b"}
+	bigBits := []string{"", "\u00a0", "=", "\xff"}
+	fillers := []string{"a", "\u00e9", "ab/c-"}
+	nlong := 0
+	long := func(size int, bit string, place int, fill string) string {
+		var sb strings.Builder
+		pos := []int{0, size / 2, size}[place]
+		for sb.Len() < pos {
+			sb.WriteString(fill)
+		}
+		sb.WriteString(bit)
+		for sb.Len() < size {
+			sb.WriteString(fill)
+		}
+		return sb.String()
+	}
+	longCase := func(s string, position int) {
+		c := tcase{lvl: nlong % 5, tm: fixedTime, msg: "m", tag: "L", viaLogger: nlong % 2}
+		switch position {
+		case 0:
+			c.msg = s
+		case 1:
+			c.attrs, c.nodes = []slog.Attr{slog.String(s, "v")}, []node{{kind: 's', key: s, text: "v"}}
+		case 2:
+			c.attrs, c.nodes = []slog.Attr{slog.String("k", s)}, []node{{kind: 's', key: "k", text: s}}
+		case 3:
+			c.chain = []step{{group: true, name: s}}
+			c.attrs, c.nodes = []slog.Attr{slog.Any("k", myErr{"e"})}, []node{{kind: 's', key: "k", text: "e"}}
+		}
+		r.run(c)
+		nlong++
+	}
+	for _, size := range sizes {
+		for bi, bit := range hostileBits {
+			for place := 0; place < 3; place++ {
+				for position := 0; position < 4; position++ {
+					longCase(long(size, bit, place, fillers[(bi+place+position)%len(fillers)]), position)
+				}
+			}
+		}
+	}
+	for si, size := range bigSizes {
+		for bi, bit := range bigBits {
+			for place := 0; place < 3; place++ {
+				for position := 0; position < 4; position++ {
+					if !e.Thorough() && (si == 1 && place != 2 || (bi+place+position)%2 == 1) {
+						continue
+					}
+					longCase(long(size, bit, place, fillers[(bi+place)%len(fillers)]), position)
+				}
+			}
+		}
+	}
+	e.Stats["long_input_cases"] = nlong
+	e.Stats["long_input_sizes"] = append(append([]int(nil), sizes...), bigSizes...)
 	// 5. random attribute trees, chains, levels, source on/off, three entry points
 	nrand := 12000
 	if e.Thorough() {
